@@ -1,0 +1,102 @@
+//go:build verif
+
+package router
+
+import "github.com/gammazero/nexus/v3/wamp"
+
+// VerifSizes holds the sizes of the per-session, per-subscription,
+// per-registration and per-call tables of one realm. It exists only in builds
+// with the "verif" tag and is read-only: every table is measured inside the
+// goroutine that owns it.
+type VerifSizes struct {
+	Clients    int
+	Testaments int
+
+	TopicSubs       int
+	PfxSubs         int
+	WcSubs          int
+	Subscriptions   int
+	SessionSubIDSet int
+	Subscribers     int // total members over all subscriptions
+	HistoryStores   int
+	HistoryEntries  int
+
+	ProcRegs         int
+	PfxRegs          int
+	WcRegs           int
+	Registrations    int
+	Callees          int // total callees over all registrations
+	CalleeRegIDSet   int
+	Calls            int
+	Invocations      int
+	InvocationByCall int
+}
+
+// VerifSnapshot returns the table sizes of every realm of a router created by
+// NewRouter. Realms that are closing may be missing from the result.
+func VerifSnapshot(r Router) map[wamp.URI]VerifSizes {
+	rtr, ok := r.(*router)
+	if !ok {
+		return nil
+	}
+	realms := map[wamp.URI]*realm{}
+	done := make(chan struct{})
+	rtr.actionChan <- func() {
+		for uri, rlm := range rtr.realms {
+			realms[uri] = rlm
+		}
+		close(done)
+	}
+	<-done
+
+	out := make(map[wamp.URI]VerifSizes, len(realms))
+	for uri, rlm := range realms {
+		var s VerifSizes
+		sync := make(chan struct{})
+		rlm.actionChan <- func() {
+			s.Clients = len(rlm.clients)
+			s.Testaments = len(rlm.testaments)
+			close(sync)
+		}
+		<-sync
+
+		b := rlm.broker
+		sync = make(chan struct{})
+		b.actionChan <- func() {
+			s.TopicSubs = len(b.topicSubscription)
+			s.PfxSubs = len(b.pfxTopicSubscription)
+			s.WcSubs = len(b.wcTopicSubscription)
+			s.Subscriptions = len(b.subscriptions)
+			s.SessionSubIDSet = len(b.sessionSubIDSet)
+			for _, sub := range b.subscriptions {
+				s.Subscribers += len(sub.subscribers)
+			}
+			s.HistoryStores = len(b.eventHistoryStore)
+			for _, hs := range b.eventHistoryStore {
+				s.HistoryEntries += hs.entries.Len()
+			}
+			close(sync)
+		}
+		<-sync
+
+		d := rlm.dealer
+		sync = make(chan struct{})
+		d.actionChan <- func() {
+			s.ProcRegs = len(d.procRegMap)
+			s.PfxRegs = len(d.pfxProcRegMap)
+			s.WcRegs = len(d.wcProcRegMap)
+			s.Registrations = len(d.registrations)
+			for _, reg := range d.registrations {
+				s.Callees += len(reg.callees)
+			}
+			s.CalleeRegIDSet = len(d.calleeRegIDSet)
+			s.Calls = len(d.calls)
+			s.Invocations = len(d.invocations)
+			s.InvocationByCall = len(d.invocationByCall)
+			close(sync)
+		}
+		<-sync
+		out[uri] = s
+	}
+	return out
+}
